@@ -27,7 +27,9 @@ NAN_UNSPECIFIED = {"MaxPool", "GlobalMaxPool", "ReduceMax", "ReduceMin", "Max", 
 # operand multiplied by a zero coefficient is a matter of convention (Gemm beta).
 NO_SPECIAL = {"Gemm", "LayerNormalization", "InstanceNormalization", "BatchNormalization", "LpNormalization", "Softmax", "LogSoftmax",
               "ReduceLogSumExp", "ReduceLogSum", "ReduceL2", "ReduceProd", "Einsum", "MatMul", "Conv", "ConvTranspose", "AveragePool",
-              "GlobalAveragePool", "ReduceMean", "ReduceSum", "ReduceL1", "ReduceSumSquare", "CumSum", "Mean", "Sum", "Range"}
+              "GlobalAveragePool", "ReduceMean", "ReduceSum", "ReduceL1", "ReduceSumSquare", "CumSum", "Mean", "Sum", "Range",
+              # linear interpolation multiplies by zero weights: 0 * inf is NaN in the reference, skipped by rten
+              "Resize"}
 
 
 def gen_singleop(seed, n_per_op, only=None):
@@ -52,6 +54,17 @@ def gen_singleop(seed, n_per_op, only=None):
                 print(f"maker {name} raised {type(e).__name__}: {e}", file=sys.stderr)
                 continue
             outs = [o.name for o in (out if isinstance(out, (list, tuple)) else [out]) if o is not None]
+            # Multi-output operators: sometimes leave earlier outputs unconnected ("" in the
+            # node's output list), keeping a later one, as exporters do for unused outputs.
+            omitted = []
+            nd = g.nodes[-1]
+            if len(outs) >= 2 and nd["outputs"] == outs and rng.chance(1, 3):
+                keep_from = rng.range(1, len(outs) - 1)
+                for i in range(keep_from):
+                    if rng.chance(2, 3):
+                        omitted.append(i)
+                        nd["outputs"][i] = ""
+                outs = [o for i, o in enumerate(outs) if i not in omitted]
             g.outputs = outs
             feeds0 = {n: g.vals[n].arr for n in g.inputs}
             feeds = [feeds0]
@@ -63,7 +76,7 @@ def gen_singleop(seed, n_per_op, only=None):
                     v = g.vals[n]
                     f2[n] = rng.array(v.dt, v.shape, special=sp) if v.dt == "f32" else v.arr
                 feeds.append(f2)
-            rec = emit.record(g, f"op-{name}-{seed}-{attempt}", "singleop", {"op": name, "opset": opset, "attrs": {k: (v if isinstance(v, (int, float, str)) else str(v)[:60]) for k, v in g.nodes[-1]["attrs"].items()}},
+            rec = emit.record(g, f"op-{name}-{seed}-{attempt}", "singleop", dict({"op": name, "opset": opset, "attrs": {k: (v if isinstance(v, (int, float, str)) else str(v)[:60]) for k, v in g.nodes[-1]["attrs"].items()}}, **({"omitted_outputs": omitted} if omitted else {})),
                               outs, feeds, tol=OPS[name]["tol"], extra={"op": name, "c15": bool(OPS[name].get("c15", True)), "random": bool(OPS[name].get("random"))})
             if rec is not None:
                 recs.append(rec)
